@@ -2,6 +2,7 @@ import DiscretModel.Model.Proto
 import DiscretModel.Model.Value
 import DiscretModel.Model.Query
 import DiscretModel.Model.SqlSem
+import DiscretModel.Model.SqlSemSub
 /-
 Model driver for engine `query` (exe `dmodel_query`), same op files as `dv-query run`.
 
@@ -764,6 +765,20 @@ def showVal : Val → String
   | .bool b => if b then "B1" else "B0"
   | .str s => "S" ++ cps s
 
+/-- number of variable filters of a query (the harness numbers the variables `p0, p1, …`: the filters of a
+    selection first, then those of its sub-selections in order) -/
+def varCount (q : Query) : Nat := (q.filters.filter (·.isParam)).length
+
+/-- the variable of the i-th filter of the sub-selection at position `j` of the root selection list -/
+def subVarName (q : Query) (j i : Nat) : String :=
+  let before := (q.sels.take j).foldl (fun acc sel =>
+    match sel with
+    | .sub _ _ _ sq => acc + varCount sq
+    | _ => acc) (varCount q)
+  match q.sels[j]? with
+  | some (.sub _ _ _ sq) => s!"p{before + ((sq.filters.take i).filter (·.isParam)).length}"
+  | _ => "p?"
+
 open Discret.SqlGen Discret.SqlSem in
 def stepSql (c : Case5) (kind : String) : String :=
   match kind with
@@ -772,23 +787,41 @@ def stepSql (c : Case5) (kind : String) : String :=
     match getNode c 0, buildQuery c FUEL 0 with
     | some nd, some q =>
       let s := schemaOf c
-      if !inFragment s q then "notfragment"
-      else if !(cursorTyped c q q.after && cursorTyped c q q.before) then "err:pagingtype"
-      else if q.filters.any (fun f => f.isParam && f.value == .null &&
-          !((fieldDef s q.ent f.fld).map (·.nullable)).getD false) then "err:notnull"
+      let nm := namesOf c (rootKey c nd)
+      let badCursor (q : Query) : Bool := !(cursorTyped c q q.after && cursorTyped c q q.before)
+      let nullVar (q : Query) : Bool := q.filters.any (fun f => f.isParam && f.value == .null &&
+          !((fieldDef s q.ent f.fld).map (·.nullable)).getD false)
+      let subs : List Query := q.sels.filterMap fun sel => match sel with | .sub _ _ _ sq => some sq | _ => none
+      if !(inFragment s q || inFragment1 s nm.table q) then "notfragment"
+      else if badCursor q || subs.any badCursor then "err:pagingtype"
+      else if nullVar q || subs.any nullVar then "err:notnull"
       else
-        let nm := namesOf c (rootKey c nd)
         let vn := varName q.filters
-        let env : String → Val := fun x =>
-          match (q.filters.zipIdx.find? fun (f, i) => f.isParam && vn i == x) with
-          | some (f, _) => f.value
-          | none => .null
-        let stmt := compile nm s vn q
-        let par := (List.range stmt.binds.length).map fun i => showSqlVal (bindVal env stmt.binds (i + 1))
-        let rows := run (encode nm c.rows) stmt env
-        "sql=" ++ QDriver.pct (render stmt) ++ " par=" ++ (if par.isEmpty then "-" else joinWith ";" par) ++
-          " rows=[" ++ joinWith "," (canonRows c FUEL q rows) ++ "]"
+        let vals : List (String × Val) :=
+          (q.filters.zipIdx.filterMap fun (f, i) => if f.isParam then some (vn i, f.value) else none) ++
+          (q.sels.zipIdx.flatMap fun (sel, j) =>
+            match sel with
+            | .sub _ _ _ sq => sq.filters.zipIdx.filterMap fun (f, i) => if f.isParam then some (subVarName q j i, f.value) else none
+            | _ => [])
+        let env : String → Val := fun x => match vals.find? (·.1 == x) with | some (_, v) => v | none => .null
+        if inFragment s q then
+          let stmt := compile nm s vn q
+          let par := (List.range stmt.binds.length).map fun i => showSqlVal (bindVal env stmt.binds (i + 1))
+          let rows := run (encode nm c.rows) stmt env
+          "sql=" ++ QDriver.pct (render stmt) ++ " par=" ++ (if par.isEmpty then "-" else joinWith ";" par) ++
+            " rows=[" ++ joinWith "," (canonRows c FUEL q rows) ++ "]"
+        else
+          let stmt := compile1 nm s vn (subVarName q) q
+          let par := (List.range stmt.binds.length).map fun i => showSqlVal (bindVal env stmt.binds (i + 1))
+          let rows := run1 (encodeDb nm c.rows) stmt env
+          "sql=" ++ QDriver.pct (render1 stmt) ++ " par=" ++ (if par.isEmpty then "-" else joinWith ";" par) ++
+            " rows=[" ++ joinWith "," (canonRows c FUEL q rows) ++ "]"
     | _, _ => "bad-op"
+  | "sqledge" =>
+    if !c.built then "err:nodb" else
+    let nm := namesOf c ""
+    let es := (encodeEdges nm c.rows).map fun e => s!"{e.src}>{e.label}>{e.dest}"
+    "edges=" ++ joinWith "|" (sortStr es)
   | "sqltbl" =>
     if !c.built then "err:nodb" else
     let nm := namesOf c ""
@@ -913,6 +946,10 @@ def stepLine (s : St) (line : String) : St × String :=
   | "sqltbl" :: _ =>
     match s.c05 with
     | some c => (s, Q5.stepSql c "sqltbl")
+    | none => (s, "bad-op")
+  | "sqledge" :: _ =>
+    match s.c05 with
+    | some c => (s, Q5.stepSql c "sqledge")
     | none => (s, "bad-op")
   | kind :: rest =>
     if ["ent", "fld", "build", "upgrade", "row", "q", "qs", "qe", "qg", "qj", "qf", "qo", "ql", "qa", "qn", "run", "pages"].contains kind then
